@@ -358,7 +358,7 @@ class Model:
                     self.declare(fr, s[3], it)
                     self.declare(fr, s[4], it * 10 + self.ev(s[5], fr))
                     env = fr.snapshot()
-                    fr.cell(s[1]).v.append(Closure([["d", "int"]], s[6], env, "<loop>", True))
+                    fr.cell(s[1]).v.append(Closure([["d", "int"]], s[6], env, "<loop>", captures_of([["d", "int"]], s[6])))
                 finally:
                     fr.blocks.pop()
         elif k == "mapset":
